@@ -3,6 +3,10 @@ extern crate std;
 #[allow(unused_imports)]
 use std::{vec, vec::Vec};
 use super::*;
+#[allow(unused_imports)]
+use embedded_graphics_core::pixelcolor::{Rgb565, Rgb666, RgbColor};
+#[allow(unused_imports)]
+use crate::interface::{Interface, InterfaceKind, InterfacePixelFormat};
 use crate::vk_support::*;
 use embedded_graphics_core::pixelcolor::raw::{RawU16, RawU24};
 use embedded_graphics_core::prelude::RawData;
